@@ -10,7 +10,7 @@ from pycaption.base import merge_concurrent_captions
 
 PROPERTY = "C19"
 RULE = ("caption sets of 1-3 languages x 0-8 captions with generated runs of identical "
-        "(start, end) at every position, nodes TEXT/BREAK/STYLE; (retime) rate_skew = k/64 with "
+        "(start, end) at every position, nodes TEXT/BREAK/STYLE (some captions hold only blank text or no text node at all); (retime) rate_skew = k/64 with "
         "k in [1,256] (exact in binary floating point, compared exactly with Fraction "
         "arithmetic) or a float in (0,4] - arbitrary, or decimal (n/10, n/100, n/1000, 25/24, 1000/1001 ...) with times on the millisecond grid so that products land within an ulp of a whole number (tolerance 1e-3 us) - integer offsets of both "
         "signs up to +-24h biased to the negated start times; (merge) reference run-merging on "
@@ -51,7 +51,14 @@ def _set_strategy(runs=True):
                     if i >= n:
                         break
                     nodes = draw(st.lists(_node(), min_size=1, max_size=3))
-                    nodes.insert(draw(st.integers(0, len(nodes))), {"t": f"c{li}_{i}"})
+                    if draw(st.integers(0, 5)) == 0:
+                        # a spacer caption: nothing but blank text (or no text node at all)
+                        nodes = [n for n in nodes if "t" not in n]
+                        if draw(st.booleans()) or not nodes:
+                            nodes.insert(draw(st.integers(0, len(nodes))),
+                                         {"t": draw(st.sampled_from(["\u00a0", " ", "\u3000", ""]))})
+                    else:
+                        nodes.insert(draw(st.integers(0, len(nodes))), {"t": f"c{li}_{i}"})
                     cues.append({"start": t, "end": t + dur, "nodes": nodes, "style": {},
                                  "layout": None})
                     i += 1
